@@ -1,0 +1,45 @@
+// SPDX-FileCopyrightText: 2026 The Pion community <https://pion.ly>
+// SPDX-License-Identifier: MIT
+
+//go:build verif
+
+package rtpfb
+
+import "time"
+
+// C12History wraps the unexported history (property C12: entries of the three
+// maps). Only compiled with the "verif" build tag.
+type C12History struct{ h *history }
+
+// C12NewHistory calls newHistory.
+func C12NewHistory() *C12History { return &C12History{h: newHistory()} }
+
+// Add calls addOutgoing.
+func (v *C12History) Add(ssrc uint32, seq uint16, isTWCC bool, twcc uint16) {
+	v.h.addOutgoing(ssrc, seq, isTWCC, twcc, 100, time.Unix(1, 0))
+}
+
+// AckTWCC calls onTWCCFeedback.
+func (v *C12History) AckTWCC(twcc uint16, arrived bool) bool {
+	_, ok := v.h.onTWCCFeedback(time.Unix(2, 0), acknowledgement{sequenceNumber: twcc, arrived: arrived, arrival: time.Unix(2, 0)})
+
+	return ok
+}
+
+// AckCCFB calls onCCFBFeedback.
+func (v *C12History) AckCCFB(ssrc uint32, seq uint16, arrived bool) bool {
+	_, ok := v.h.onCCFBFeedback(time.Unix(2, 0), ssrc, acknowledgement{sequenceNumber: seq, arrived: arrived, arrival: time.Unix(2, 0)})
+
+	return ok
+}
+
+// Report calls buildReport and returns the number of packet reports.
+func (v *C12History) Report() int { return len(v.h.buildReport()) }
+
+// Sizes returns len(packets), len(twccToCounter), len(ssrcSeqNrToCounter).
+func (v *C12History) Sizes() (int, int, int) {
+	v.h.lock.Lock()
+	defer v.h.lock.Unlock()
+
+	return len(v.h.packets), len(v.h.twccToCounter), len(v.h.ssrcSeqNrToCounter)
+}
